@@ -127,8 +127,9 @@ CHECKS = {
 DONE = set(CHECKS)
 # second session: translators beyond the constants, and source-level theorems
 _TRANSLATED = {
-    "C01": "SrpProof::into_server", "C02": "SrpProof::into_server and SrpClientChallenge::verify_server_proof",
-    "C03": "SKey::as_equal_slice", "C04": "check_public_key", "C05": "SrpServer::verify_reconnection_attempt and SrpClient::calculate_reconnect_values",
+    "C19": "the five big-integer formulas of the handshake (the model is parametrised by the back end)",
+    "C01": "SrpProof::into_server and the five big-integer formulas", "C02": "SrpProof::into_server and SrpClientChallenge::verify_server_proof",
+    "C03": "SKey::as_equal_slice and the five big-integer formulas (verifier, B, S, client A, client S)", "C04": "check_public_key", "C05": "SrpServer::verify_reconnection_attempt and SrpClient::calculate_reconnect_values",
     "C06": "the six ProofSeed::into_{client,server}_header_crypto functions", "C07": "the Vanilla encrypt / decrypt loop bodies",
     "C08": "the TBC encrypt / decrypt loop bodies", "C09": "Rc4::pseudo_random_generation", "C10": "ServerEncrypterHalf::encrypt_server_header",
     "C11": "the Vanilla / TBC loop bodies and the Wrath encrypt_server_header", "C13": "NormalizedString::new", "C14": "SKey::as_equal_slice",
